@@ -20,6 +20,7 @@ D = os.path.join(SPEC, "poolcb")
 # mirrors of the code the explorer is parametrised with (see PoolCallbacks.tla CONSTANTS)
 CATCH_UNWIND = True      # pool_managed.rs insert_with / with_iter wrap the closure in catch_unwind
 BOOK_FIRST = True        # pool_raw.rs remove: length/vacancy updated before the destructor runs
+DROP_CATCHES = True      # handles/*managed*.rs Drop: catch_unwind around pool.remove, guard released before resume_unwind
 
 POOLS = {("mutex", True): ["OpaquePool", "PinnedPool"], ("mutex", False): ["BlindPool"],
          ("refcell", True): ["LocalOpaquePool", "LocalPinnedPool"], ("refcell", False): ["LocalBlindPool"],
@@ -30,9 +31,9 @@ WATCHDOG_MS = 10000
 
 def explore(run, wd, maxn, name="explorer", book_first=None, catch=None, coverage=False):
     cfg = os.path.join(wd, "mc_%s.cfg" % name)
-    consts = "Discs <- AllDiscs  MaxN = %d  MaxDepth = 2  CatchUnwind = %s  BookFirst = %s" % (
+    consts = "Discs <- AllDiscs  MaxN = %d  MaxDepth = 2  CatchUnwind = %s  BookFirst = %s  DropCatches = %s" % (
         maxn, "TRUE" if (CATCH_UNWIND if catch is None else catch) else "FALSE",
-        "TRUE" if (BOOK_FIRST if book_first is None else book_first) else "FALSE")
+        "TRUE" if (BOOK_FIRST if book_first is None else book_first) else "FALSE", "TRUE" if DROP_CATCHES else "FALSE")
     open(cfg, "w").write("CONSTANTS %s\nSPECIFICATION FairSpec\n"
                          "INVARIANT TypeOK SlabConsistent QuietProgramsClean GuardReleasedAtQuiescence GenProg\n"
                          "PROPERTY Terminates\nCHECK_DEADLOCK FALSE\n" % consts)
